@@ -255,7 +255,10 @@ was corrected in the machinery, never by loosening a right oracle):
   construction (332 of 1 200). C20's slow-read fault first reported `transfer-raised:TimeoutError` on the clean tree:
   `AsyncResultTimeout` IS the builtin `TimeoutError`, the harness had compared class names → compares the class. C02's new
   StopIteration-subclass step was never generated within the quick budget (one of eight methods on three of eighteen slots) →
-  constructive fragment.
+  constructive fragment. Five seeded matrices started at once (isolated `vp run` snapshots) reported nine changes as missed that
+  are caught when run alone: `tools/seeded_run.py` used `git stash` to run the demonstration on the clean tree, and the stash ref is
+  shared by all worktrees of one repository, so the runs popped each other's patches → it now saves `git diff` to a file in its
+  own worktree and re-applies that; the nine were re-run one at a time.
 
 """
 a = s.index("## 7. Calibration log")
